@@ -4,6 +4,10 @@ import re, subprocess, time
 
 def run_cvc5(smt, timeout=120):
     t0 = time.time()
+    import os
+    if os.environ.get("VERIF_DUMP_SMT"):
+        with open(os.environ["VERIF_DUMP_SMT"], "a") as f:
+            f.write(";; ---- query\n" + smt + "\n")
     try:
         p = subprocess.run(["cvc5", "--lang", "smt2", "--strings-exp", "--produce-models", "--tlimit=%d" % (timeout * 1000)],
                            input=smt, capture_output=True, text=True, timeout=timeout + 10)
